@@ -40,12 +40,14 @@ DEFAULT_SPEC = {
     "equal_len": 0,        # make two chromosomes equally long
     "chr_order": 0,        # permutation index for chromosome length ranking (pads tails)
     "tie_perm": 0,         # permutation seed for record order among equal positions
+    "novel_twin": 0,       # 1: genes with an unannotated isoform get a second, different one
     "novel_notail": 0,     # 1: reads of unannotated isoforms and of single-exon genes have no polyA tail (the rest of the library has: fraction >= 70%)
     "exp_polya": None,     # per-experiment list: 0 = this experiment's reads are polyA-trimmed
     "gene_naming": 0,      # 0: G<n>; 1: zg<n> (lower case, sorts after novel_gene_); 2: si:dkey-<n>
     "group_naming": 0,     # 0: grp<n>/g<nn>; 1: G<n> (sorts before NA); 2: <n>x (digit first); 3: mixed case; 4: numbers; 5: blanks at the ends
     "drop_chr_annotation": 0,  # genes of the last k chromosomes are left out of the GTF (reads stay)
     "readthrough": 0,      # k same-strand genes that duplicate another gene's first isoform under a new gene id
+    "mirror_novel": 0,     # 1: also every gene with >= 5 exons and an unannotated isoform gets a mirror gene
     "mirror": 0,           # k antisense genes with exon coordinates identical to another gene's first isoform
     "intergenic_multi": 0, # k reads whose only usable alignments are tied multi-exon secondaries in gene-free loci
     "deep_gene": 0,        # 1: one gene gets ~230 reads (200/20 per isoform, 3 novel, 10 truncated); 2: a dedicated six-exon gene
@@ -289,7 +291,11 @@ def generate(spec):
             if c not in known and c not in cands:
                 cands.append(c)
         if cands:
-            g.novel.append(cands[rg.randrange(len(cands))])
+            pick = rg.randrange(len(cands))
+            g.novel.append(cands[pick])
+            if s.get("novel_twin") and len(cands) >= 2:
+                # a second unannotated isoform of the same gene (several novel models of one gene in one chromosome's storage)
+                g.novel.append(cands[(pick + 1) % len(cands)])
     for g in [x for x in flat if len(x.exons) >= 2][: s["noncanon"]]:
         g.noncanon = True
     # reads with an extra exon outside the annotated span of their gene (300 bp before its first exon, canonical sites)
@@ -355,7 +361,12 @@ def generate(spec):
         rt.annotation_only = True
         genes[CHR_NAMES.index(g.chrom)].append(rt)
     # mirror genes: identical exon coordinates on the opposite strand (annotation only)
-    for g in [x for x in flat if len(x.exons) >= 2][-s["mirror"]:] if s["mirror"] else []:
+    mirror_hosts = [x for x in flat if len(x.exons) >= 2][-s["mirror"]:] if s["mirror"] else []
+    if s.get("mirror_novel"):
+        # ... and every gene with >= 5 exons that has an unannotated isoform: its annotated introns are annotated on both strands,
+        # the strand of the unannotated isoform has to come from the genome
+        mirror_hosts += [x for x in flat if len(x.exons) >= 5 and x.novel and x not in mirror_hosts]
+    for g in mirror_hosts:
         gcount += 1
         mg = Gene(gene_name(s, gcount), g.chrom, "-" if g.strand == "+" else "+", list(g.exons))
         mg.isoforms = [(mg.gid + ".t1", list(range(len(g.exons))))]
@@ -595,6 +606,9 @@ def generate(spec):
             variants = [(tid, idx, 6 if g is not long_genes[2] else 1, False) for tid, idx in g.isoforms]
         if g is pile_gene:
             variants = [(tid, idx, 1100, False) for tid, idx in g.isoforms]
+        if "notail_genes" not in locals():
+            # (novel_notail = 2: also every read of the first annotated gene of the first chromosome is tail-less)
+            notail_genes = set(cg[0].gid for cg in genes[:1] if cg)
         for tid, idx, cov, is_novel in variants:
             for k in range(cov):
                 blocks = [g.exons[i] for i in idx]
@@ -621,7 +635,8 @@ def generate(spec):
                 else:
                     blocks = [(a0 + ds, b0)] + list(blocks[1:-1]) + [(a1, b1 - de)]
                 polya = bool(s["polya"]) and (k % 5 != 4)
-                if (is_novel or len(g.exons) == 1) and s.get("novel_notail"):
+                if ((is_novel or len(g.exons) == 1) and s.get("novel_notail")) or \
+                        (s.get("novel_notail", 0) >= 2 and g.gid in notail_genes):
                     # the reads of unannotated isoforms carry no tail: such a model is reported only when the library-wide tail
                     # statistics say that tails are not required
                     polya = False
